@@ -50,8 +50,16 @@ def _fmt_stub(obj, format_spec=""):
     if use:
         return "<sym>"
     return _orig_format(obj, format_spec)
+_orig_repr = _PATCH_REGISTRATIONS[repr]
+def _repr_stub(obj):
+    with NoTracing():
+        use = _in_msg_context()
+    if use:
+        return "<repr>"
+    return _orig_repr(obj)
 if '--stubfmt' in sys.argv:
     _PATCH_REGISTRATIONS[format] = _fmt_stub
+    _PATCH_REGISTRATIONS[repr] = _repr_stub
 
 import functools
 def _partial_fixed(_f, /, *a1, **kw1):
